@@ -1,0 +1,76 @@
+//go:build verif
+
+package rux
+
+// Read-only accessors for the verification harness in /verif.
+// This file is only compiled with the build tag "verif"; it adds code and changes nothing.
+
+// VerifKeys returns the cache keys in recency order (most recent first).
+func (c *cachedRoutes) VerifKeys() []string {
+	c.lock.RLock()
+	defer c.lock.RUnlock()
+
+	keys := make([]string, 0, c.list.Len())
+	for e := c.list.Front(); e != nil; e = e.Next() {
+		keys = append(keys, e.Value.(*cacheNode).Key)
+	}
+	return keys
+}
+
+// VerifMapLen returns the size of the hash index (must equal the list length).
+func (c *cachedRoutes) VerifMapLen() int {
+	c.lock.RLock()
+	defer c.lock.RUnlock()
+	return len(c.hashMap)
+}
+
+// VerifCachedRoutes returns the router's cache instance (nil when caching is off).
+func (r *Router) VerifCachedRoutes() *cachedRoutes { return r.cachedRoutes }
+
+// VerifAbortIndex returns the sentinel index used by Abort.
+func VerifAbortIndex() int { return int(abortIndex) }
+
+// VerifIndex returns the current handler index of the context.
+func (c *Context) VerifIndex() int { return int(c.index) }
+
+// VerifHandlersLen returns the length of the handler chain of the context.
+func (c *Context) VerifHandlersLen() int { return len(c.handlers) }
+
+// VerifParams returns the params stored in a (cached) route copy.
+func (r *Route) VerifParams() Params { return r.params }
+
+// VerifRouteInfo returns the parsed internals of a route.
+func (r *Route) VerifRouteInfo() (start, spath, regex string, matches []string) {
+	if r.regex != nil {
+		regex = r.regex.String()
+	}
+	return r.start, r.spath, regex, r.matches
+}
+
+// VerifTables returns the keys of the three route tables with the route paths in list order.
+func (r *Router) VerifTables() (stable map[string]string, regular, irregular map[string][]string) {
+	stable = make(map[string]string, len(r.stableRoutes))
+	for k, rt := range r.stableRoutes {
+		stable[k] = rt.path
+	}
+
+	regular = make(map[string][]string, len(r.regularRoutes))
+	for k, rs := range r.regularRoutes {
+		for _, rt := range rs {
+			regular[k] = append(regular[k], rt.path)
+		}
+	}
+
+	irregular = make(map[string][]string, len(r.irregularRoutes))
+	for k, rs := range r.irregularRoutes {
+		for _, rt := range rs {
+			irregular[k] = append(irregular[k], rt.path)
+		}
+	}
+	return
+}
+
+// VerifScope returns the registration scope (current group prefix and number of group handlers).
+func (r *Router) VerifScope() (prefix string, groupHandlers int, globalHandlers int) {
+	return r.currentGroupPrefix, len(r.currentGroupHandlers), len(r.handlers)
+}
